@@ -75,7 +75,20 @@ fn analyse(tcx: TyCtxt<'_>) {
             }
             let Some(term) = &bb.terminator else { continue };
             match &term.kind {
-                TerminatorKind::Call { func, fn_span, .. } => {
+                TerminatorKind::Call { func, fn_span, destination, .. } => {
+                    // VALUSE: how a freshly produced TextSize/TextRange value is consumed (value flow through plain
+                    // copies/moves of whole locals inside this body)
+                    let dty = destination.ty(&body.local_decls, tcx).ty.to_string();
+                    if (dty.ends_with("TextSize") || dty.ends_with("TextRange")) && destination.projection.is_empty() {
+                        if let ty::FnDef(callee, substs) = func.ty(&body.local_decls, tcx).kind() {
+                            let rid = match Instance::try_resolve(tcx, typing_env, *callee, substs) {
+                                Ok(Some(inst)) => inst.def_id(),
+                                _ => *callee,
+                            };
+                            let uses = value_uses(tcx, body, typing_env, destination.local);
+                            let _ = writeln!(out, "VALUSE\t{}\t{}\t{}\t{}\t{}", name, tcx.def_path_str(rid), uses.join(";"), loc(tcx, *fn_span), fn_span.from_expansion());
+                        }
+                    }
                     let fty = func.ty(&body.local_decls, tcx);
                     if let ty::FnDef(callee, substs) = fty.kind() {
                         let (rid, rsub, resolved) = match Instance::try_resolve(tcx, typing_env, *callee, substs) {
@@ -101,6 +114,113 @@ fn analyse(tcx: TyCtxt<'_>) {
     }
     let path = std::path::Path::new(&out_dir).join(format!("{}-{}.facts", krate, std::process::id()));
     let _ = std::fs::write(path, out);
+}
+
+/// Consumers of the value in `start` (followed through whole-local copies/moves): "call:<callee>#<arg index>",
+/// "return", "aggregate:<ty>", "field-store", "other:<rvalue kind>".
+fn value_uses<'tcx>(tcx: TyCtxt<'tcx>, body: &rustc_middle::mir::Body<'tcx>, typing_env: TypingEnv<'tcx>, start: rustc_middle::mir::Local) -> Vec<String> {
+    use rustc_middle::mir::Local;
+    let mut set: std::collections::BTreeSet<Local> = [start].into_iter().collect();
+    let op_local = |o: &Operand<'tcx>| -> Option<Local> {
+        match o {
+            Operand::Copy(p) | Operand::Move(p) if p.projection.is_empty() => Some(p.local),
+            _ => None,
+        }
+    };
+    loop {
+        let mut changed = false;
+        for bb in body.basic_blocks.iter() {
+            for st in &bb.statements {
+                if let StatementKind::Assign(b) = &st.kind {
+                    let (place, rv) = &**b;
+                    if !place.projection.is_empty() {
+                        continue;
+                    }
+                    let src = match rv {
+                        Rvalue::Use(o, ..) => op_local(o),
+                        _ => None,
+                    };
+                    if let Some(s) = src {
+                        if set.contains(&s) && set.insert(place.local) {
+                            changed = true;
+                        }
+                    }
+                }
+            }
+        }
+        if !changed {
+            break;
+        }
+    }
+    let mut uses: std::collections::BTreeSet<String> = Default::default();
+    if set.contains(&rustc_middle::mir::RETURN_PLACE) {
+        uses.insert("return".into());
+    }
+    for bb in body.basic_blocks.iter() {
+        for st in &bb.statements {
+            if let StatementKind::Assign(b) = &st.kind {
+                let (place, rv) = &**b;
+                let mut ops: Vec<&Operand<'tcx>> = vec![];
+                let kind = match rv {
+                    Rvalue::Use(o, ..) => {
+                        ops.push(o);
+                        if place.projection.is_empty() { "" } else { "field-store" }
+                    }
+                    Rvalue::Aggregate(_, fields) => {
+                        for f in fields.iter() {
+                            ops.push(f);
+                        }
+                        "aggregate"
+                    }
+                    Rvalue::BinaryOp(_, pair) => {
+                        ops.push(&pair.0);
+                        ops.push(&pair.1);
+                        "other:binop"
+                    }
+                    Rvalue::Cast(_, o, _) => {
+                        ops.push(o);
+                        "other:cast"
+                    }
+                    Rvalue::Ref(_, _, p) => {
+                        if p.projection.is_empty() && set.contains(&p.local) {
+                            uses.insert("other:ref".into());
+                        }
+                        ""
+                    }
+                    _ => "",
+                };
+                if kind.is_empty() {
+                    continue;
+                }
+                if ops.iter().any(|o| op_local(o).map_or(false, |l| set.contains(&l))) {
+                    if kind == "aggregate" {
+                        uses.insert(format!("aggregate:{}", place.ty(&body.local_decls, tcx).ty));
+                    } else {
+                        uses.insert(kind.to_string());
+                    }
+                }
+            }
+        }
+        if let Some(term) = &bb.terminator {
+            if let TerminatorKind::Call { func, args, .. } = &term.kind {
+                for (i, a) in args.iter().enumerate() {
+                    if op_local(&a.node).map_or(false, |l| set.contains(&l)) {
+                        let cname = if let ty::FnDef(callee, substs) = func.ty(&body.local_decls, tcx).kind() {
+                            match Instance::try_resolve(tcx, typing_env, *callee, substs) {
+                                Ok(Some(inst)) => tcx.def_path_str(inst.def_id()),
+                                _ => tcx.def_path_str(*callee),
+                            }
+                        } else {
+                            "<indirect>".to_string()
+                        };
+                        let fsp = if let TerminatorKind::Call { fn_span, .. } = &term.kind { loc(tcx, *fn_span) } else { String::new() };
+                        uses.insert(format!("call:{}#{}@{}", cname, i, fsp));
+                    }
+                }
+            }
+        }
+    }
+    uses.into_iter().map(|u| u.replace('\t', " ").replace(';', ",")).collect()
 }
 
 fn main() {
